@@ -276,14 +276,18 @@ class PE:
             dep, opts = True, [(const_val(rhs), True)]      # plain constants propagate
         for v, sure in opts:
             nb = dict(bind)
-            if base:
+            if base and not (v is not None and bind.get(lk) == v):
+                # the pointer now designates another object: what was known about *p no longer applies
+                # (re-assigning the value it already has keeps the knowledge)
                 for kk in [kk for kk in nb if kk.startswith(base)]:
                     del nb[kk]
             if dep:
                 nb[lk] = v if v is not None else UNSURE
             else:
                 nb.pop(lk, None)
-            res.append((nb, sure))
+            # an unknown stored value does not make the *path* uncertain: the UNSURE marker on the variable does that
+            # for every later test that reads it
+            res.append((nb, True if v is None else sure))
         return res
 
     def _addr_taken(self, e, b):
